@@ -234,10 +234,29 @@ fn unary(e: &mut Eng, a: (i32, i32)) {
 
 /// mixed operators with Time (acts as SECOND) and DimensionlessInteger (acts as DIMENSIONLESS)
 fn mixed(e: &mut Eng, a: (i32, i32)) {
-    let ua = uq(a.0, a.1);
-    let checked = cfg!(feature = "dimcheck");
     let times = [Time(2_000_000_000), Time(-3), Time(0), Time(123_456_789_012)];
     let ints = [DimensionlessInteger(2), DimensionlessInteger(-7), DimensionlessInteger(0), DimensionlessInteger(16_777_217)];
+    mixed_with(e, a, &[1.5f32, -0.1, 0.0, 7e6], &times, &ints);
+}
+/// Dense sweep of the *relation* between the two operands of a mixed operator: the Quantity is the
+/// converted Time / integer operand times r, for every r of a ratio grid (2^(i/16) over 2^-4..2^4
+/// plus 1 +- 2^-k, k = 3..20: nearly equal, but not equal, operands included), in the unit in
+/// which the additive forms are legal.
+pub fn mixed_sweep(e: &mut Eng) {
+    let grid = ratio_grid(16, 4);
+    for t in [Time(37_421_300_000), Time(-100_000_000_000), Time(7_000_000)] {
+        let base = Quantity::from(t).value as f64;
+        let xs: Vec<f32> = grid.iter().map(|r| (base * r) as f32).collect();
+        mixed_with(e, (0, 1), &xs, &[t], &[]);
+    }
+    for i in [DimensionlessInteger(37), DimensionlessInteger(-1000)] {
+        let xs: Vec<f32> = grid.iter().map(|r| (i.0 as f64 * r) as f32).collect();
+        mixed_with(e, (0, 0), &xs, &[], &[i]);
+    }
+}
+fn mixed_with(e: &mut Eng, a: (i32, i32), xs: &[f32], times: &[Time], ints: &[DimensionlessInteger]) {
+    let ua = uq(a.0, a.1);
+    let checked = cfg!(feature = "dimcheck");
     macro_rules! case {
         ($name:expr, $k:expr, $other:expr, $real:expr, $conv:expr) => {{
             e.executions += 1;
@@ -276,9 +295,9 @@ fn mixed(e: &mut Eng, a: (i32, i32)) {
     }
     let sec = (0, 1);
     let dl = (0, 0);
-    for &x in &[1.5f32, -0.1, 0.0, 7e6] {
+    for &x in xs {
         let q = Quantity::new(x, ua);
-        for &t in &times {
+        for &t in times {
             let tq = Quantity::from(t);
             case!("q+t", UExp::Same, sec, q + t, q + tq);
             case!("q-t", UExp::Same, sec, q - t, q - tq);
@@ -293,7 +312,7 @@ fn mixed(e: &mut Eng, a: (i32, i32)) {
             case!("t*q", UExp::Add, sec, t * q, tq * q);
             case!("t/q", UExp::Sub, sec, t / q, tq / q);
         }
-        for &i in &ints {
+        for &i in ints {
             let iq = Quantity::from(i);
             case!("q+i", UExp::Same, dl, q + i, q + iq);
             case!("q-i", UExp::Same, dl, q - i, q - iq);
@@ -592,6 +611,7 @@ pub fn run(ctx: &Ctx) -> Vec<Eng> {
             mixed(&mut e3, (m, s));
         }
     }
+    mixed_sweep(&mut e3);
     time_int_products(&mut e3);
     constants_and_conversions(&mut e3);
     let mut e4 = Eng::new(
